@@ -41,16 +41,18 @@ type SolverStats struct {
 }
 
 type Solver struct {
-	bin     string
-	args    []string
-	cmd     *exec.Cmd
-	in      io.WriteCloser
-	out     *bufio.Reader
-	pr      *Printer
-	stack   []*Term // asserted path-condition terms, one push level each
-	Stats   SolverStats
-	timeout int // ms for the pipe solver
-	log     io.Writer
+	bin        string
+	args       []string
+	cmd        *exec.Cmd
+	in         io.WriteCloser
+	out        *bufio.Reader
+	pr         *Printer
+	stack      []*Term // asserted path-condition terms, one push level each
+	Stats      SolverStats
+	timeout    int // ms for the pipe solver
+	log        io.Writer
+	curTimeout int
+	hung       bool
 	// persistent pipe for integer-translation queries
 	icmd *exec.Cmd
 	iin  io.WriteCloser
@@ -136,8 +138,26 @@ func (s *Solver) intPipeQuery(body string, names []string, timeoutMS int) (Resul
 		s.intPipeClose()
 		return Unknown, nil, false
 	}
-	line, err := s.iout.ReadString('\n')
-	if err != nil {
+	type lineRes struct {
+		line string
+		err  error
+	}
+	ch := make(chan lineRes, 1)
+	rd := s.iout
+	go func() {
+		l, err := rd.ReadString('\n')
+		ch <- lineRes{l, err}
+	}()
+	var line string
+	select {
+	case lr := <-ch:
+		if lr.err != nil {
+			s.intPipeClose()
+			return Unknown, nil, false
+		}
+		line = lr.line
+	case <-time.After(time.Duration(timeoutMS)*time.Millisecond + 3*time.Second):
+		// the soft timeout was not honoured: kill the process (the reader goroutine ends with it)
 		s.intPipeClose()
 		return Unknown, nil, false
 	}
@@ -216,11 +236,30 @@ func (s *Solver) send(txt string) {
 }
 
 func (s *Solver) readLine() string {
-	line, err := s.out.ReadString('\n')
-	if err != nil {
-		panic(fmt.Sprintf("solver pipe read: %v (%q)", err, line))
+	type lineRes struct {
+		line string
+		err  error
 	}
-	return strings.TrimSpace(line)
+	ch := make(chan lineRes, 1)
+	rd := s.out
+	go func() {
+		l, err := rd.ReadString('\n')
+		ch <- lineRes{l, err}
+	}()
+	limit := time.Duration(s.curTimeout)*time.Millisecond + 5*time.Second
+	select {
+	case lr := <-ch:
+		if lr.err != nil {
+			panic(fmt.Sprintf("solver pipe read: %v (%q)", lr.err, lr.line))
+		}
+		return strings.TrimSpace(lr.line)
+	case <-time.After(limit):
+		// soft timeout not honoured: restart the solver, answer unknown
+		s.hung = true
+		s.cmd.Process.Kill()
+		<-ch
+		return "unknown"
+	}
 }
 
 // sync makes the solver's assertion stack equal to pc.
@@ -249,7 +288,9 @@ func (s *Solver) CheckSet(terms []*Term, vars []*Term) (Result, map[string]uint6
 // CheckSetTimeout is CheckSet under a per-query soft timeout (ms).
 func (s *Solver) CheckSetTimeout(terms []*Term, vars []*Term, ms int) (Result, map[string]uint64) {
 	s.send(fmt.Sprintf("(set-option :timeout %d)\n", ms))
+	s.curTimeout = ms
 	r, v := s.Check(nil, terms, vars)
+	s.curTimeout = s.timeout
 	if s.cmd != nil {
 		s.send(fmt.Sprintf("(set-option :timeout %d)\n", s.timeout))
 	}
@@ -280,7 +321,18 @@ func (s *Solver) Check(pc []*Term, extra []*Term, vars []*Term) (Result, map[str
 	}
 	sb.WriteString("(check-sat)\n")
 	s.send(sb.String())
+	if s.curTimeout == 0 {
+		s.curTimeout = s.timeout
+	}
 	ans := s.readLine()
+	if s.hung {
+		s.hung = false
+		s.Stats.Unknown++
+		s.cmd.Wait()
+		s.cmd = nil
+		s.start()
+		return Unknown, nil
+	}
 	for strings.HasPrefix(ans, "(error") || ans == "" {
 		if strings.HasPrefix(ans, "(error") {
 			s.Stats.Errors++
